@@ -307,6 +307,106 @@ def r34_documented_formulas(facts):
             c.unk(inst, where, "comparison outside the algebra")
         else:
             c.bad(inst, where, "%s forward is documented as activation?(%r) but the code computes %s" % (kind, core, " or ".join(repr(g[1]) for g in got)))
+    # ---- activation closures: relu / sigmoid / softmax apply exactly that function, once
+    for nm in ("relu", "sigmoid", "softmax"):
+        b = facts.body("corgi::activation::%s" % nm)
+        cb = _closure_in(facts, b) if b is not None else None
+        if cb is None:
+            c.unk("activation:%s" % nm, "-", "activation::%s is not a `Box::new(|x| ..)` closure (or a private function passed by name)" % nm)
+            continue
+        where = "%s:%d" % (F.rel(cb["file"]), cb["sp"][0])
+        fw = _forward(facts, cb)
+        x = fw.alg.atom("a0")
+        env = Env(None)
+        ps = [p for p in facts.params(cb) if p.get("pat")]
+        for p, v in zip(ps, [("arr", x)]):
+            fw.ev.bind(p["pat"], v, env)
+        try:
+            val = fw.ev.ev(_root_without_returns(facts, cb), env)
+            got, why = _single_arr(fw, val)
+        except (Abstain, Unsupported, RecursionError) as ex:
+            got, why = None, str(ex)
+        if got is None:
+            c.unk("activation:%s" % nm, where, "the activation closure is outside the algebra (%s)" % why)
+            continue
+        if nm == "relu":
+            want = PW("Gt(%r)" % x, x, Frac(0))
+        elif nm == "sigmoid":
+            want = Frac(1) / (Frac(1) + fw.alg.exp(-x))
+        else:
+            ex_ = fw.alg.exp(x)
+            want = ex_ / fw.alg.atom("sum[%r|1]" % ex_)
+        n += 1
+        _cmp(c, "activation:%s" % nm, where, got, want, "activation::%s()(a0)" % nm)
+    # ---- parameter shapes set up by the constructors: weights [outputs, inputs], one bias per output / per filter
+    for ctor_name, self_ty_part, want_shapes in (("new", "Dense", {"weights": ["p1", "p0"], "biases": ["p1"]}),
+                                                  ("new", "Conv", {"filters": ["p0.0", "p0.1", "p0.2", "p0.3"], "biases": ["p0.0", 1, 1]})):
+        for b in facts.fns():
+            if b.get("name") != ctor_name or self_ty_part not in (b.get("impl_self") or "") or b.get("impl_trait_def"):
+                continue
+            where = "%s:%d" % (F.rel(b["file"]), b["sp"][0])
+            ps = [p for p in facts.params(b) if p.get("pat")]
+            pnames = {}
+            for i, p in enumerate(ps):
+                if p["pat"].get("k") == "Binding":
+                    pnames[p["pat"]["v"]] = "p%d" % i
+            lets = {}
+            for n_ in walk(facts.root(b)):
+                if n_.get("k") == "Block":
+                    for st in n_["stmts"]:
+                        if st["s"] == "let" and st.get("init") is not None:
+                            if st["pat"].get("k") == "Binding":
+                                lets[st["pat"]["v"]] = st["init"]
+                            elif st["pat"].get("k") == "Leaf" and F.var_of(st["init"]) in pnames:
+                                for sb in st["pat"]["subs"]:
+                                    if sb["pat"].get("k") == "Binding":
+                                        pnames[sb["pat"]["v"]] = "%s.%d" % (pnames[F.var_of(st["init"])], sb["idx"])
+
+            def dim_name(e, depth=0, pnames=pnames, lets=lets):
+                e = strip(e)
+                lv = lit_value_(e)
+                if isinstance(lv, int):
+                    return lv
+                v = F.var_of(e)
+                if v in pnames:
+                    return pnames[v]
+                if e.get("k") == "Field" and F.var_of(e["e"]) in pnames and e.get("idx") is not None:
+                    return "%s.%d" % (pnames[F.var_of(e["e"])], e["idx"])
+                if v in lets and depth < 4:
+                    return dim_name(lets[v], depth + 1)
+                return None
+            from .repr_rules import vec_literal_elems
+            for n_ in walk(facts.root(b)):
+                if n_.get("k") == "Adt" and n_.get("adt_local") and n_.get("fields"):
+                    for fld in n_["fields"]:
+                        fname = fld.get("name")
+                        if fname not in want_shapes:
+                            continue
+                        init = strip(fld["e"])
+                        hops = 0
+                        while isinstance(init, dict) and init.get("k") in ("VarRef",) and init["v"] in lets and hops < 4:
+                            init = strip(lets[init["v"]])
+                            hops += 1
+                        dims = None
+                        for x_ in walk(init):
+                            if x_.get("k") == "Call" and (resolved(x_) or "").startswith("<corgi::array::Array as core::convert::From<(") and x_["args"]:
+                                t = strip(x_["args"][0])
+                                if t.get("k") == "Tuple" and t["fields"]:
+                                    d0 = strip(t["fields"][0])
+                                    hops2 = 0
+                                    while isinstance(d0, dict) and d0.get("k") == "VarRef" and d0["v"] in lets and hops2 < 4:
+                                        d0 = strip(lets[d0["v"]])
+                                        hops2 += 1
+                                    els = vec_literal_elems(d0)
+                                    if els is not None:
+                                        dims = [dim_name(e_) for e_ in els]
+                        inst = "shape:%s.%s" % (self_ty_part, fname)
+                        if dims is None or any(d is None for d in dims):
+                            c.unk(inst, where, "dimensions of `%s` are not a vector literal of constructor parameters (%s)" % (fname, dims))
+                        else:
+                            n += 1
+                            c.check(dims == want_shapes[fname], inst, where, "`%s` has dimensions %s" % (fname, dims),
+                                    "`%s` is created with dimensions %s, documented layout %s" % (fname, dims, want_shapes[fname]))
     # ---- model
     mf = [b for b in facts.fns() if b.get("name") == "forward" and (b.get("impl_self") or "").startswith("corgi::model::Model")]
     mb = [b for b in facts.fns() if b.get("name") == "backward" and (b.get("impl_self") or "").startswith("corgi::model::Model")]
